@@ -21,9 +21,11 @@ def specNext (c : Cfg) (sp : SpecSt) (r : SState) : SpecSt :=
   if isOK c.kind r then { everOk := true, streak := 0, prev := r }
   else { sp with streak := sp.streak + 1, prev := r }
 
-/-- Expected event, `none` = not constrained (volatile object in or entering a soft state). -/
+/-- Expected event, `none` = not constrained: a volatile object that is in a soft state *after* the
+    result (the quantifier's "events emitted while in a soft state").  The last retry and the return
+    from a soft state to OK/Up leave the object hard, so they are constrained for volatile objects too. -/
 def specEvent (c : Cfg) (n n' : Nat) (prev new : SState) : Option Ev :=
-  if c.volatile && ((0 < n && n < c.max) || (0 < n' && n' < c.max)) then none
+  if c.volatile && (0 < n' && n' < c.max) then none
   else
     let lastRetry := n < c.max && n' == c.max
     let hardToOtherHard := c.max ≤ n && c.max ≤ n' && proj c.kind prev != proj c.kind new
@@ -37,6 +39,8 @@ def specEvent (c : Cfg) (n n' : Nat) (prev new : SState) : Option Ev :=
 inductive Clause
   | okHardAttempt1 | hardAttempt1 | attemptRange | hardAfterMax
   | streakHard | streakSoft | event | stateRecorded | droppedAlthoughNotOlder
+  | droppedChangesSomething | apiProjection | varsAfter | lastState
+  | lastHardAtHardEvent | lastHardUnchanged | previousHardState | previousHardUnchanged
   deriving Repr, DecidableEq
 
 def Clause.name : Clause → String
@@ -49,6 +53,14 @@ def Clause.name : Clause → String
   | .event => "state_change_event"
   | .stateRecorded => "state_is_latest_result"
   | .droppedAlthoughNotOlder => "result_not_older_than_the_latest_is_processed"
+  | .droppedChangesSomething => "dropped_result_changes_nothing"
+  | .apiProjection => "api_state_is_projection_of_raw_state"
+  | .varsAfter => "vars_after_is_state_after_result"
+  | .lastState => "last_state_is_state_of_previous_result"
+  | .lastHardAtHardEvent => "hard_event_records_last_hard_state"
+  | .lastHardUnchanged => "last_hard_state_changes_only_with_hard_event"
+  | .previousHardState => "previous_hard_state_is_hard_state_before_latest_hard_event"
+  | .previousHardUnchanged => "previous_hard_state_changes_only_with_hard_event"
 
 /-- May a result be dropped?  Only when it is strictly older than the latest accepted one
     (with non-decreasing timestamps every result is processed). -/
@@ -74,13 +86,107 @@ def specStep (c : Cfg) (sp : SpecSt) (r : SState) (o : Obs) : Option Clause :=
                         | some e => e != o.ev) then some .event
   else none
 
-/-- Check a whole trace (only accepted results count; a dropped result must change nothing,
-    which the driver checks separately against the previous observation). -/
+/-- Check the accepted results of a trace against the state/attempt/event clauses only (kept for the
+    refinement lemma; the full specification is `specFull` below). -/
 def specTrace (c : Cfg) : SpecSt → List (SState × Obs) → Option Clause
   | _, [] => none
   | sp, (r, o) :: rest =>
     match specStep c sp r o with
     | some cl => some cl
     | none => specTrace c (specNext c sp r) rest
+
+/-! ## The hard-state bookkeeping ("the hard state changes exactly with a hard event") and dropped results
+
+These clauses relate *observations* of one trace to each other: the hard state an object shows
+(`last_hard_state`), the one before it (`previous_hard_state` of the check result), the previous state
+(`last_state`), and the events. -/
+
+/-- What a reader of the trace remembers beside the streak. -/
+structure HistSt where
+  last : Option Obs        -- previous observation (or the known start state); `none` = never-checked object
+  hardAt : Option SState   -- state of the result at the most recent hard event (or the known start hard state)
+  lastExec : Option Int    -- execution start of the latest accepted result
+  deriving Repr
+
+def histInit : HistSt := { last := none, hardAt := none, lastExec := none }
+
+/-- Projection of a raw state number (99 = "never" has none). -/
+def projN (k : Kind) (n : Nat) : Option Nat := (SState.ofNat? n).map (proj k)
+
+def histStep (c : Cfg) (h : HistSt) (r : SState) (o : Obs) : Option Clause :=
+  if o.apiState != proj c.kind r || o.apiLastHard != proj c.kind o.lastHard then some .apiProjection
+  else if !(o.vaState == o.state.toNat && o.vaType == o.stype.toNat && o.vaAttempt == o.attempt) then some .varsAfter
+  else if o.ev == .hard && proj c.kind o.lastHard != proj c.kind r then some .lastHardAtHardEvent
+  else if o.ev == .hard && (match h.hardAt with
+                            | some x => projN c.kind o.prevHard != some (proj c.kind x)
+                            | none => false) then some .previousHardState
+  else match h.last with
+    | none => none
+    | some lo =>
+      if o.apiLastState != proj c.kind lo.state then some .lastState
+      else if o.ev != .hard && proj c.kind o.lastHard != proj c.kind lo.lastHard then some .lastHardUnchanged
+      else if o.ev != .hard && !c.volatile && projN c.kind o.prevHard != projN c.kind lo.prevHard then
+        some .previousHardUnchanged
+      else none
+
+def histNext (h : HistSt) (r : Res) (o : Obs) : HistSt :=
+  { last := some o, hardAt := if o.ev == .hard then some r.state else h.hardAt, lastExec := some r.execStart }
+
+/-- Two observations show the same object state (everything but `accepted` and the event). -/
+def sameState (a b : Obs) : Bool :=
+  a.state == b.state && a.stype == b.stype && a.attempt == b.attempt && a.lastHard == b.lastHard &&
+  a.prevHard == b.prevHard && a.vaState == b.vaState && a.vaType == b.vaType && a.vaAttempt == b.vaAttempt &&
+  a.apiState == b.apiState && a.apiLastState == b.apiLastState && a.apiLastHard == b.apiLastHard
+
+/-- A result that was not processed: it must be strictly older than the latest accepted one, report no
+    event and leave every observable as it was. -/
+def dropStep (h : HistSt) (r : Res) (o : Obs) : Option Clause :=
+  if !mayDrop h.lastExec r.execStart then some .droppedAlthoughNotOlder
+  else if o.ev != .none then some .droppedChangesSomething
+  else match h.last with
+    | none => none
+    | some lo => if sameState lo o then none else some .droppedChangesSomething
+
+/-- One line of the trace against the whole specification; returns the advanced bookkeeping too. -/
+def fullStep (c : Cfg) (sp : SpecSt) (h : HistSt) (r : Res) (o : Obs) : Option Clause × SpecSt × HistSt :=
+  if o.accepted then
+    ((specStep c sp r.state o).or (histStep c h r.state o), specNext c sp r.state, histNext h r o)
+  else
+    (dropStep h r o, sp, h)
+
+/-- The whole specification over a whole trace (accepted and dropped results). -/
+def specFull (c : Cfg) : SpecSt → HistSt → List (Res × Obs) → Option Clause
+  | _, _, [] => none
+  | sp, h, (r, o) :: rest =>
+    match fullStep c sp h r o with
+    | (some cl, _, _) => some cl
+    | (none, sp', h') => specFull c sp' h' rest
+
+/-! ## Start states other than the never-checked one (state file, cluster sync)
+
+A start state of the shape the state machine itself produces determines the streak: (OK/Up, hard, 1)
+is streak 0; (non-OK, soft, a) with a < max is streak a; (non-OK, hard, 1) is a streak ≥ max.  From such
+a state everything is required at once; from any other state only the universal invariants until the
+first OK/Up result. -/
+def specStart (c : Cfg) (s : St) : SpecSt :=
+  if isOK c.kind s.state && s.stype == .hard && s.attempt == 1 then
+    { everOk := true, streak := 0, prev := s.state }
+  else if !isOK c.kind s.state && s.stype == .soft && 1 ≤ s.attempt && s.attempt < c.max then
+    { everOk := true, streak := s.attempt, prev := s.state }
+  else if !isOK c.kind s.state && s.stype == .hard && s.attempt == 1 then
+    { everOk := true, streak := c.max, prev := s.state }
+  else { specInit with prev := s.state }
+
+/-- Is the recorded hard state of the start state usable as "the hard state so far"?  (For a volatile
+    object every result overwrites it, so it has to agree with the state.) -/
+def startKnown (c : Cfg) (s : St) : Bool :=
+  !c.volatile || proj c.kind s.lastHard == proj c.kind s.state
+
+def histStart (c : Cfg) (s : St) : HistSt :=
+  if startKnown c s then
+    { last := some (stObs c s),
+      hardAt := if s.hist / 100 == s.lastHard.toNat then some s.lastHard else none,
+      lastExec := s.lastExec }
+  else { last := none, hardAt := none, lastExec := s.lastExec }
 
 end Icinga.C01
